@@ -29,7 +29,7 @@ pub struct Case {
 }
 
 pub const MAKE: [&str; 10] = ["make:plain", "make:exclude-hit", "make:exclude-miss", "make:non-rk", "make:prf", "make:counter", "make:prf-uv-only-unverified", "make:bad-alg", "make:pin-auth", "make:uv-unconfigured"];
-pub const GET: [&str; 8] = ["get:allow", "get:no-list", "get:prf", "get:counterless", "get:prf-no-secret", "get:prf-uv-only-unverified", "get:pin-auth", "get:two-listed"];
+pub const GET: [&str; 10] = ["get:allow", "get:no-list", "get:prf", "get:counterless", "get:prf-no-secret", "get:prf-uv-only-unverified", "get:pin-auth", "get:two-listed", "get:silent", "get:silent-prf"];
 pub const CODES: [u8; 6] = [0x00, 0x01, 0x28, 0x2E, 0x7F, 0xF0];
 
 fn seeds() -> Vec<Passkey> {
@@ -67,7 +67,11 @@ where
         uv.verification_cap = Some(false);
     }
     let cfg = AuthCfg { counter: request == "make:counter", id_len: None, hmac: if uv_only { 1 } else { 2 }, hmac_mc: true };
-    let ask_uv = !uv_only;
+    let silent = request.starts_with("get:silent");
+    if silent {
+        uv.outcome = UvOutcome::Ok { presence: false, verification: false };
+    }
+    let ask_uv = !uv_only && !silent;
     let mut auth = mk_auth(store, uv, &cfg);
     let prf = || AuthenticatorPrfInputs { eval: Some(AuthenticatorPrfValues { first: [1; 32], second: None }), eval_by_credential: None };
     if request.starts_with("make") {
@@ -92,9 +96,11 @@ where
             "get:prf-uv-only-unverified" => (Some(vec![cred_id(1)]), Some(get_assertion::ExtensionInputs { hmac_secret: None, prf: Some(prf()) })),
             "get:pin-auth" => (Some(vec![cred_id(1)]), None),
             "get:two-listed" => (Some(vec![cred_id(2), cred_id(1)]), None),
+            "get:silent" => (Some(vec![cred_id(1)]), None),
+            "get:silent-prf" => (Some(vec![cred_id(1)]), Some(get_assertion::ExtensionInputs { hmac_secret: None, prf: Some(prf()) })),
             _ => (None, None),
         };
-        let req = ga_request(RP, allow, false, true, ask_uv, request == "get:pin-auth", ext);
+        let req = ga_request(RP, allow, false, !silent, ask_uv, request == "get:pin-auth", ext);
         Res::Get(auth.get_assertion(req).await.map(|r| (r.credential.map(|d| d.id.to_vec()).unwrap_or_default(), r.auth_data.counter.unwrap_or(0))).map_err(sc_byte))
     }
 }
@@ -369,7 +375,7 @@ pub fn run(ctx: &Ctx) -> Result<Run, String> {
     }
     let mut run = Run::from_stats(
         "fault_enumeration",
-        "requests {make: plain, exclude-list hit, exclude-list miss, non-rk, PRF, counter, PRF evaluation that fails late (verification-gated secrets, unverified ceremony), unsupported algorithm, pin-auth, verification unconfigured; get: allow list, no list, PRF, counter-less, PRF on a credential without secret, PRF that fails late, pin-auth, two listed credentials} x store stack {contract store, behind Arc<Mutex>, behind Arc<RwLock>} x fault plans over the faultable store calls (every single call x 6 status codes, every subset of >= 2 calls with KeyStoreFull; thorough: subsets x 6 codes and single faults x all 256 bytes) x cancellation after every k < polls-to-completion (every store call and the user step suspend once); plus cancellation-only runs on Arc<Mutex<MemoryStore>> and Arc<RwLock<Option<Passkey>>>. Oracle: store snapshot before/after against a model that applies only the calls that returned Ok, call log, result. Every (request, store, plan, cancellation point) is a distinct case",
+        "requests {make: plain, exclude-list hit, exclude-list miss, non-rk, PRF, counter, PRF evaluation that fails late (verification-gated secrets, unverified ceremony), unsupported algorithm, pin-auth, verification unconfigured; get: allow list, no list, PRF, counter-less, PRF on a credential without secret, PRF that fails late, pin-auth, two listed credentials, silent (up = uv = false, nothing reported) with and without PRF} x store stack {contract store, behind Arc<Mutex>, behind Arc<RwLock>} x fault plans over the faultable store calls (every single call x 6 status codes, every subset of >= 2 calls with KeyStoreFull; thorough: subsets x 6 codes and single faults x all 256 bytes) x cancellation after every k < polls-to-completion (every store call and the user step suspend once); plus cancellation-only runs on Arc<Mutex<MemoryStore>> and Arc<RwLock<Option<Passkey>>>. Oracle: store snapshot before/after against a model that applies only the calls that returned Ok, call log, result. Every (request, store, plan, cancellation point) is a distinct case",
         true,
         stats,
     );
